@@ -51,7 +51,7 @@ def expected_stream(src, opts, cut_before=False):
     one token; the property cannot mean a cut through the sequence)."""
     out = []
     targets = 0
-    d10 = False
+    d10 = 0     # truncations whose cut point met an escape sequence
     for tt, v in src:
         if tt in T.Whitespace:
             continue
@@ -89,6 +89,8 @@ def expected_stream(src, opts, cut_before=False):
                                          and len(cut) + len(u) > n):
                         break
                     cut += u
+                if len(cut) != n:
+                    d10 += 1        # the n-th character is inside an escape
                 marker = opts.get('truncate_char', '[...]')
                 v = "'" + cut + marker + "'"
                 targets += 1
@@ -132,9 +134,7 @@ def check(ctx, text, opts, meta, alone):
     err = fmtutil.describe_diff(want, got, 'expected/actual token')
     fid = None
     if err:
-        if d10:
-            fid = ctx.findings.attr('D10')
-        elif fmtutil.comment_has_quote(text) and not opts.get(
+        if fmtutil.comment_has_quote(text) and not opts.get(
                 'strip_comments'):
             fid = ctx.findings.attr('D8')
         rec.violation('targeted-' + '+'.join(sorted(
@@ -164,10 +164,11 @@ def check(ctx, text, opts, meta, alone):
                                      (again or '')[max(0, (i or 0) - 20):
                                                    (i or 0) + 20]),
                           key='idem' + str(sorted(opts)),
-                          finding=ctx.findings.attr('D10') if d10 else None)
+                          finding=None)
     if targets and meta:
         rec.nontrivial((options.opts_key(opts), meta))
     rec.count('targets_seen', targets)
+    rec.count('truncations_at_an_escape_sequence', d10)
     rec.hist('filters', ','.join(sorted(opts)) or '<none>')
     if rec.evaluations % 499 == 1:
         rec.sample({'text': text[:240], 'options': opts,
